@@ -6,7 +6,7 @@ mkdir -p /tmp/vtmp3/checker/testdata && cp /verif/known_findings.json /tmp/vtmp3
 for spec in "$@"; do
   p=${spec%%:*}; props=${spec#*:}
   git -C $W checkout -q --detach $(git -C /repo rev-parse HEAD) && git -C $W reset -q --hard && git -C $W clean -qfd
-  git -C $W apply /tmp/rf/out/$p.diff 2>/dev/null || { echo "$p: DOES-NOT-APPLY"; continue; }
+  git -C $W apply ${RF_DIR:-/verif/refactors}/$p.diff 2>/dev/null || { echo "$p: DOES-NOT-APPLY"; continue; }
   out=$($BIN -prop $props -tier quick -repo $W -verif /tmp/vtmp3 2>&1)
   bad=$(echo "$out" | grep -E '^C[0-9]+: ' | grep -v ' 0 failing' | cut -d: -f1 | tr '\n' ' ')
   echo "$p [$props]: alarms: [$bad]"
